@@ -2749,7 +2749,561 @@ func spines(emit func(steps []Step)) {
 	}
 }
 
-const rule = "data: Root/Mid/Leaf/Inner graphs (value and pointer fields, nil pointers, slices, arrays, map[string], map[int], slices/maps of pointers with nil elements, interface-typed fields, value- and pointer-receiver methods with 0-2 arguments returning strings, structs, pointers, nil, slices and maps; the member names Name, Arr, M, IM, Any, Hello repeat at every depth) in 2 recipes x root passed as Root or *Root; every leaf string spells its own Go path with [A-Za-z0-9_.,()\\[\\]] only (keys and arguments unquoted). Paths: walks over the TYPE graph by reflection (field, index/key, method-call steps; literal and context-variable indexes, keys and arguments): (E1) every walk of <= L steps (quick: 3, plus every 5th walk of 4 steps; thorough: 4) that ends at a string or at a deliberately broken step (missing key, index = len and beyond, negative index, wrong key type, unknown / unexported member, field called as method, indexing a struct; nil pointers and short slices come from the data); (E2) two and three INDEXED levels r.C1[i].C2[j].C3[k] over every combination of collection-valued members; (R) random walks of up to 7+ steps with random root and variable names (names that collide with member names included). Each path is placed in <%= %> (once, and twice in a row), behind `let v = prefix` at every position, and as a `for (kk, v) in prefix` iterable at every index step (the rest continues from the loop variable; every element is checked), also let+for combined; (E3/R) SWEEPS: the whole body is put in one loop body and evaluated once per value of a variable q (loop key, loop value, or `let q = value` re-assigned in the loop scope) that stands for one or several inner indexes / keys / method arguments of the path, so the same expression node is evaluated 2-4 times in one scope with different inner indexes; every evaluation is compared with the reference walk for its value. (N) NODE family: a recursive Node whose every member leads to a Node (fields Kids []Node, Next *Node, M map[string]*Node, Any interface{}; methods Kid(i) Node, PKid(i) *Node on the pointer, GetKids() []Node, Hello, Greet(s), Echo(any)); a node built by a method spells the call; 2 recipes (recipe 1: 3/1 kids, nil Next on every third level, nil map entries): every sequence of 1-3 hops x 4 tails (4 hops: sampled in the quick tier), literal/variable pattern, root and let names that are member names; long paths of 6 and 9 hops; every variable argument RENAMED to every member / method name that occurs earlier in the path (a template variable called Kids used below .Kids[0]); sweeps; BULK: one render that evaluates a path 1100 times. (X) EXT family: embedded structs (by value, by pointer - nil in recipe 1 -, of an unexported type) with promoted and shadowed fields and promoted methods, consecutive indexes (slice of slices, array of arrays, map of maps, map of slices, slice of maps; two and three in a row; at the top, below an index, below a call), interface-typed ELEMENTS (JSON-like nests, a slice of structs of two types that have the same member names in a different order, typed and untyped nil elements, a pointer to an array in an interface), a map keyed by interface{}, named slice / map types with methods, pointer to array: every walk of <= 3 steps incl. broken ones and every unexported member. (RE) RE-EXECUTION: one Template parsed once and executed 3-4 times against data of the other recipe / root form whose leaves spell the root differently; every execution is judged. Random walks for the Node and Ext families as for Root, with renamed variables. Reference: a reflection walk of the same steps over a separate copy of the same data (promoted members: the leaf spells the short path). Verdict per path: completable => output == the leaf's spelled path; not completable => error or empty output; a panic or any other text => violation; a clean failure of a completable path is a violation unless its shape is a listed open class. Non-trivial = broken path, or completable path of >= 3 steps containing an index, a method call or a cut; distinct by (family, recipe, root form, names, steps, cuts, twice, sweep, re-execution list, bulk)."
+// ---- (REC) functions of the template that call themselves from INSIDE a path -------------------
+//
+// A function defined in the template navigates a generated path P, and the
+// recursive call (to itself, to a second function that calls it back, or
+// through a function literal nested in its body) stands INSIDE the path: as
+// an index, a map key or a method argument - P[... walk(dk - 1) ...]. The
+// same expression node is then under evaluation several times at once, one
+// evaluation nested in the other, each at a different element. The reference
+// does the same recursion in Go with the reflection walk.
+//
+//	leaf form (hole = a string / any argument of a method):
+//	    let walk = fn(dk) { if (dk <= 0) { return B } return P[walk(dk - 1)] }          emit walk(K)
+//	cmp form (hole = an index, a key, any argument; B, V1, V2 are values of the hole's type):
+//	    let walk = fn(dk) { if (dk <= 0) { return B } if (P[walk(dk - 1)] == "LIT") { return V1 } return V2 }
+//	                                                                                      emit walk(K)|P[walk(K)]
+//	mutual:  walk -> hop -> walk (leaf form: hop navigates a second path Q);  nested: walk -> fn literal in walk's body -> walk
+//	Let:     the path's value goes through `let pv = ...` inside the function
+//	Wrap:    the prefix up to an index / call step becomes a function of the template: pick(i).rest  (f(x).b)
+//	Loop:    the emit stands in a loop body and is evaluated at several depths: for (qk, q) in ks { walk(q) }
+type RecCase struct {
+	P     Case   `json:"p"`    // family, recipe, root form, root name; Steps = the path P
+	Hole  [2]int `json:"hole"` // P.Steps[Hole[0]].A[Hole[1]] is where the recursive call stands
+	Q     []Step `json:"q,omitempty"`
+	HoleQ [2]int `json:"holeq,omitempty"`
+	Shape string `json:"shape"` // direct | mutual | nested
+	Cmp   bool   `json:"cmp,omitempty"`
+	Let   bool   `json:"let,omitempty"`
+	Wrap  int    `json:"wrap,omitempty"` // > 0: P.Steps[:Wrap] is reached through the template function pick
+	K     int    `json:"k"`
+	Loop  []int  `json:"loop,omitempty"`
+	B     Arg    `json:"b"`
+	V1    Arg    `json:"v1"`
+	V2    Arg    `json:"v2"`
+	Lit   Arg    `json:"lit"` // cmp form: LIT is the leaf Go reaches with this value in the hole
+}
+
+func (c RecCase) key() string { b, _ := json.Marshal(c); return string(b) }
+
+func holeOK(steps []Step, h [2]int) bool {
+	return h[0] >= 0 && h[0] < len(steps) && h[1] >= 0 && h[1] < len(steps[h[0]].A)
+}
+
+func (c RecCase) wellFormed() string {
+	p := c.P
+	p.Cuts, p.Sweep, p.Reexec, p.Bulk, p.Together, p.Twice = nil, nil, nil, 0, false, false
+	if !reflect.DeepEqual(p, c.P) {
+		return "rec: cuts, sweeps, re-execution and bulk do not apply"
+	}
+	if why := p.wellFormed(); why != "" {
+		return why
+	}
+	switch p.Root {
+	case "walk", "hop", "pick", "inner", "dk", "dj", "pi", "pv", "q", "qk", "ks":
+		return "rec: reserved root name"
+	}
+	for _, s := range append(append([]Step(nil), p.Steps...), c.Q...) {
+		if !s.valid() {
+			return "rec: bad step"
+		}
+		for _, a := range s.A {
+			if a.Sw {
+				return "rec: sweep argument"
+			}
+			switch a.N {
+			case "walk", "hop", "pick", "inner", "dk", "dj", "pi", "pv", "q", "qk", "ks":
+				return "rec: reserved variable name"
+			}
+		}
+	}
+	if !holeOK(p.Steps, c.Hole) {
+		return "rec: bad hole"
+	}
+	if c.Shape != "direct" && c.Shape != "mutual" && c.Shape != "nested" {
+		return "rec: bad shape"
+	}
+	if c.K < 1 || c.K > 6 || len(c.Loop) > 6 {
+		return "rec: bad depth"
+	}
+	for _, k := range c.Loop {
+		if k < 0 || k > 6 {
+			return "rec: bad depth"
+		}
+	}
+	if len(c.Q) > 0 && (c.Cmp || c.Shape != "mutual" || !holeOK(c.Q, c.HoleQ) || c.Q[c.HoleQ[0]].M == "") {
+		return "rec: bad second path"
+	}
+	if !c.Cmp && p.Steps[c.Hole[0]].M == "" {
+		return "rec: the leaf form needs a method argument"
+	}
+	if c.Wrap != 0 {
+		if c.Wrap < 1 || c.Wrap > len(p.Steps) || c.Hole[0] < c.Wrap-1 {
+			return "rec: bad wrap"
+		}
+		if s := p.Steps[c.Wrap-1]; s.F != "" || len(s.A) > 1 {
+			return "rec: bad wrap"
+		}
+	}
+	for _, a := range []Arg{c.B, c.V1, c.V2, c.Lit} {
+		if a.Var || a.Sw || a.N != "" || strings.ContainsAny(a.S, "\"\\<>%&'\n") {
+			return "rec: bad value"
+		}
+	}
+	return ""
+}
+
+// stepSrcWith: the source of step s with argument ai replaced by the source text h.
+func stepSrcWith(s Step, ai int, h string) string {
+	as := make([]string, len(s.A))
+	for i, a := range s.A {
+		as[i] = a.src()
+	}
+	as[ai] = h
+	if s.X {
+		return "[" + as[0] + "]"
+	}
+	return "." + s.M + "(" + strings.Join(as, ", ") + ")"
+}
+
+// pathSrc: the source of the path with h in the hole; with wrap > 0 the prefix is pick(...).
+func (c RecCase) pathSrc(steps []Step, hole [2]int, h string, wrap int) string {
+	var sb strings.Builder
+	start := 0
+	if wrap > 0 {
+		s := steps[wrap-1]
+		switch {
+		case len(s.A) == 0:
+			sb.WriteString("pick()")
+		case hole[0] == wrap-1:
+			sb.WriteString("pick(" + h + ")")
+		default:
+			sb.WriteString("pick(" + s.A[0].src() + ")")
+		}
+		start = wrap
+	} else {
+		sb.WriteString(c.P.Root)
+	}
+	for i := start; i < len(steps); i++ {
+		if i == hole[0] {
+			sb.WriteString(stepSrcWith(steps[i], hole[1], h))
+		} else {
+			sb.WriteString(steps[i].src())
+		}
+	}
+	return sb.String()
+}
+
+func litSrc(a Arg) string { a.Var, a.Sw = false, false; return a.src() }
+
+func (c RecCase) template() string {
+	var sb strings.Builder
+	P := func(h string) string { return c.pathSrc(c.P.Steps, c.Hole, h, c.Wrap) }
+	sb.WriteString("<% ")
+	if c.Wrap > 0 {
+		s := c.P.Steps[c.Wrap-1]
+		pre := c.P.Root
+		for _, e := range c.P.Steps[:c.Wrap-1] {
+			pre += e.src()
+		}
+		if len(s.A) == 0 {
+			sb.WriteString("let pick = fn() { return " + pre + s.src() + " }\n")
+		} else {
+			sb.WriteString("let pick = fn(pi) { return " + pre + stepSrcWith(s, 0, "pi") + " }\n")
+		}
+	}
+	// use: what the function does with the value of the path expression e
+	use := func(e, lit string) string {
+		pre := ""
+		if c.Let {
+			pre, e = "let pv = "+e+"\n  ", "pv"
+		}
+		if c.Cmp {
+			return pre + "if (" + e + " == \"" + lit + "\") { return " + litSrc(c.V1) + " }\n  return " + litSrc(c.V2)
+		}
+		return pre + "return " + e
+	}
+	lit := c.litLeaf()
+	base := "if (dk <= 0) { return " + litSrc(c.B) + " }\n  "
+	switch {
+	case c.Shape == "direct":
+		sb.WriteString("let walk = fn(dk) {\n  " + base + use(P("walk(dk - 1)"), lit) + "\n}")
+	case c.Shape == "nested":
+		sb.WriteString("let walk = fn(dk) {\n  " + base + "let inner = fn(dj) { return " + P("walk(dj)") + " }\n  " + use("inner(dk - 1)", lit) + "\n}")
+	case c.Cmp: // mutual: walk compares what hop navigates; hop calls walk back inside the path
+		sb.WriteString("let walk = fn(dk) {\n  " + base + use("hop(dk)", lit) + "\n}\n")
+		sb.WriteString("let hop = fn(dk) { return " + P("walk(dk - 1)") + " }")
+	default: // mutual, leaf form: two functions, two paths
+		q, hq := c.P.Steps, c.Hole
+		wrap := c.Wrap
+		if len(c.Q) > 0 {
+			q, hq, wrap = c.Q, c.HoleQ, 0
+		}
+		sb.WriteString("let walk = fn(dk) {\n  " + base + use(P("hop(dk - 1)"), lit) + "\n}\n")
+		sb.WriteString("let hop = fn(dk) {\n  if (dk <= 0) { return " + litSrc(c.V1) + " }\n  return " + c.pathSrc(q, hq, "walk(dk - 1)", wrap) + "\n}")
+	}
+	sb.WriteString(" %>")
+	emit := func(k string) string {
+		if c.Cmp {
+			return "<%= walk(" + k + ") %>|<%= " + P("walk("+k+")") + " %>"
+		}
+		return "<%= walk(" + k + ") %>"
+	}
+	if len(c.Loop) > 0 {
+		sb.WriteString("<%= for (qk, q) in ks { %>" + emit("q") + ";<% } %>")
+	} else {
+		sb.WriteString(emit(strconv.Itoa(c.K)))
+	}
+	return sb.String()
+}
+
+func fillHole(steps []Step, hole [2]int, a Arg) []Step {
+	out := append([]Step(nil), steps...)
+	out[hole[0]].A = append([]Arg(nil), out[hole[0]].A...)
+	a.Var, a.Sw, a.N = false, false, ""
+	out[hole[0]].A[hole[1]] = a
+	return out
+}
+
+// nav: Go navigation of the path with value h in the hole; why != "" when Go does not reach a leaf string.
+func (c RecCase) nav(steps []Step, hole [2]int, h Arg) (leaf, why string) {
+	w := walk(c.P.refStart(), fillHole(steps, hole, h))
+	switch {
+	case w.unspec != "":
+		return "", "unspecified/" + w.unspec
+	case !w.ok:
+		return "", "broken/" + w.why
+	case w.addrUnspe:
+		return "", "unspecified/ptr-method-on-temporary"
+	}
+	return w.val, ""
+}
+
+// litLeaf: the literal the cmp form compares with.
+func (c RecCase) litLeaf() string {
+	if !c.Cmp {
+		return ""
+	}
+	if l, why := c.nav(c.P.Steps, c.Hole, c.Lit); why == "" {
+		return l
+	}
+	return "none"
+}
+
+// expected does in Go what the template's functions do; why != "" when some
+// navigation on the way cannot be completed in Go (the statement then fixes
+// only "error or empty" for that one navigation, not what the functions make of it).
+func (c RecCase) expected() (want, why string) {
+	lit := c.litLeaf()
+	P := func(h Arg) string {
+		l, w := c.nav(c.P.Steps, c.Hole, h)
+		if w != "" && why == "" {
+			why = w
+		}
+		return l
+	}
+	var walkF, hopF func(k int) Arg
+	switch {
+	case c.Cmp:
+		walkF = func(k int) Arg {
+			if k <= 0 {
+				return c.B
+			}
+			if P(walkF(k-1)) == lit {
+				return c.V1
+			}
+			return c.V2
+		}
+	case c.Shape == "mutual":
+		q, hq := c.P.Steps, c.Hole
+		if len(c.Q) > 0 {
+			q, hq = c.Q, c.HoleQ
+		}
+		walkF = func(k int) Arg {
+			if k <= 0 {
+				return c.B
+			}
+			return Arg{S: P(hopF(k - 1))}
+		}
+		hopF = func(k int) Arg {
+			if k <= 0 {
+				return c.V1
+			}
+			l, w := c.nav(q, hq, walkF(k-1))
+			if w != "" && why == "" {
+				why = w
+			}
+			return Arg{S: l}
+		}
+	default:
+		walkF = func(k int) Arg {
+			if k <= 0 {
+				return c.B
+			}
+			return Arg{S: P(walkF(k - 1))}
+		}
+	}
+	emit := func(k int) string {
+		v := walkF(k)
+		if c.Cmp {
+			return v.spell() + "|" + P(v)
+		}
+		return v.spell()
+	}
+	if len(c.Loop) == 0 {
+		return emit(c.K), why
+	}
+	var sb strings.Builder
+	for _, k := range c.Loop {
+		sb.WriteString(emit(k) + ";")
+	}
+	return sb.String(), why
+}
+
+// ptrMethodBehindPick: pick(i) hands out a COPY of what Go addresses in place; a pointer-receiver method on it is not
+// the navigation Go does.
+func (c RecCase) ptrMethodBehindPick() bool {
+	if c.Wrap == 0 {
+		return false
+	}
+	for _, s := range c.P.Steps[c.Wrap:] {
+		switch s.M {
+		case "PHello", "PKid", "GetPMid", "GetPLeaf", "BPHello":
+			return true
+		}
+	}
+	return false
+}
+
+func (c RecCase) maxDepth() int {
+	k := c.K
+	if len(c.Loop) > 0 {
+		k = 0
+		for _, d := range c.Loop {
+			k = max(k, d)
+		}
+	}
+	return k
+}
+
+func checkRec(r *vk.Run, c RecCase) *vk.Fail {
+	defer r.Watch("rec", c)()
+	if c.ptrMethodBehindPick() {
+		r.Exclude("unspecified/ptr-method-on-temporary")
+		return nil
+	}
+	want, why := c.expected()
+	if why != "" {
+		// some navigation inside the recursion is not completable in Go: what the functions make of an
+		// empty value is not C11's business (broken paths are judged by the other phases)
+		r.Exclude("rec: " + why)
+		return nil
+	}
+	src := c.template()
+	d := c.P.data()
+	if len(c.Loop) > 0 {
+		d["ks"] = append([]int(nil), c.Loop...)
+	}
+	res := vk.Safe(func() (string, error) { return plush.Render(src, plush.NewContextWith(d)) })
+	nt := ""
+	if c.maxDepth() >= 2 && c.Hole[0] >= 1 {
+		nt = c.key() // the path is entered again while it is under evaluation, below its first step
+	}
+	form := "leaf"
+	if c.Cmp {
+		form = "cmp"
+	}
+	r.Count(nt, "recursive/"+c.Shape+"/"+form)
+	r.Sample(func() interface{} {
+		return map[string]interface{}{"template": src, "data": fmt.Sprintf("family %q, recipe %d, ptr=%v, as %q", c.P.Fam, c.P.Variant, c.P.Ptr, c.P.Root), "expected": want, "got": res.String()}
+	})
+	tn := map[string]string{"": "Root", "node": "Node", "ext": "Ext"}[c.P.Fam]
+	where := fmt.Sprintf("%s  [data variant %d, %s = %s]", src, c.P.Variant, c.P.Root, map[bool]string{true: "*" + tn, false: tn}[c.P.Ptr])
+	switch {
+	case res.Panicked():
+		return &vk.Fail{Kind: "rec", Case: c, Msg: fmt.Sprintf("%s: %s", where, res)}
+	case res.Err != nil:
+		return &vk.Fail{Kind: "rec", Class: "clean-failure/recursive", Case: c, Msg: fmt.Sprintf("%s: every navigation of the recursion is completable in Go (which gives %q) but plush gave %s", where, want, res)}
+	case res.Out != want:
+		return &vk.Fail{Kind: "rec", Class: "wrong-value/recursive", Case: c, Msg: fmt.Sprintf("%s: WRONG VALUE: the same recursion over Go navigation gives %q, plush gave %s", where, want, res)}
+	}
+	return nil
+}
+
+// recValues: candidate values of the hole's type.
+func recValues(hole Arg, s Step) []Arg {
+	switch {
+	case hole.Int:
+		return []Arg{{Int: true, I: 0}, {Int: true, I: 1}, {Int: true, I: 2}}
+	case s.X:
+		return []Arg{{S: "b"}, {S: "a"}}
+	}
+	return []Arg{{S: "x"}, {S: "b"}, {S: "a"}}
+}
+
+// recCasesOf: for every argument of the path, the recursion forms that fit it; num varies the details.
+// Values are tried in a fixed order until Go completes every navigation (else the first combination stays and is
+// counted as excluded).
+func recCasesOf(p Case, num int, full bool) []RecCase { return recCasesOf1(p, num, full, -1) }
+
+// recCasesOf1: only >= 0: just the case with that number (modulo the number of cases) is built.
+func recCasesOf1(p Case, num int, full bool, only int) []RecCase {
+	var out []RecCase
+	count := 0
+	if only >= 0 {
+		if count = len(recCasesOf1(p, num, full, -2)); count == 0 {
+			return nil
+		}
+	}
+	seq := -1
+	shapes := []string{"direct", "mutual", "nested"}
+	p.Steps = append([]Step(nil), p.Steps...)
+	for si := range p.Steps { // (sweep marks and renamed variables of the source path stay out)
+		if len(p.Steps[si].A) > 0 {
+			p.Steps[si].A = append([]Arg(nil), p.Steps[si].A...)
+			for ai := range p.Steps[si].A {
+				p.Steps[si].A[ai].Sw = false
+			}
+		}
+	}
+	for si, s := range p.Steps {
+		for ai, a := range s.A {
+			num++
+			vals := recValues(a, s)
+			forms := []bool{true}
+			if s.M != "" && !a.Int {
+				forms = []bool{false, true}
+			} else if s.M != "" && s.M == "Echo" {
+				forms = []bool{true, false}
+			}
+			for fi, cmp := range forms {
+				if !full && fi > 0 && num%2 == 0 {
+					continue
+				}
+				for shi, shape := range shapes {
+					if !full && (num+fi)%3 != shi {
+						continue
+					}
+					n := num + 5*shi + 11*fi
+					c := RecCase{P: p, Hole: [2]int{si, ai}, Shape: shape, Cmp: cmp, Let: n%3 == 1, K: 2 + n%2}
+					seq++
+					if only == -2 { // counting
+						out = append(out, c)
+						continue
+					}
+					if only >= 0 && seq != only%count {
+						continue
+					}
+					if n%4 == 3 {
+						c.Loop = []int{c.K, 0, 1, c.K}
+					}
+					// pick(...): at the step of the hole or at an earlier index / call step
+					if n%5 >= 3 {
+						for w := si + 1; w >= 1; w-- {
+							if st := p.Steps[w-1]; st.F == "" && len(st.A) <= 1 && (w-1 != si || ai == 0) {
+								c.Wrap = w
+								if n%5 == 3 {
+									break
+								}
+							}
+						}
+					}
+					if !cmp && shape == "mutual" && n%2 == 0 {
+						// a second path for hop: the root's own Greet / Echo, or the first path again
+						if p.Fam == "node" {
+							c.Q, c.HoleQ = []Step{{F: "Kids"}, {X: true, A: ia(0, false)}, {M: "Greet", A: sa("x", false)}}, [2]int{2, 0}
+						} else if p.Fam == "" {
+							c.Q, c.HoleQ = []Step{{F: "Mids"}, {X: true, A: ia(1, n%4 == 0)}, {M: "Greet", A: sa("x", false)}}, [2]int{2, 0}
+						}
+					}
+					found := false
+				search:
+					for i := range vals {
+						for j := range vals {
+							c.B, c.V1, c.V2, c.Lit = vals[i], vals[(i+j+1)%len(vals)], vals[(i+j)%len(vals)], vals[i]
+							if !cmp {
+								c.B, c.V1 = Arg{S: "z"}, Arg{S: "y"}
+							}
+							if _, why := c.expected(); why == "" {
+								found = true
+								break search
+							}
+							if !cmp {
+								break search
+							}
+						}
+					}
+					if !found {
+						c.B, c.V1, c.V2, c.Lit = vals[0], vals[1%len(vals)], vals[0], vals[0]
+						if !cmp {
+							c.B, c.V1 = Arg{S: "z"}, Arg{S: "y"}
+						}
+					}
+					if why := c.wellFormed(); why != "" {
+						panic("harness: generated case is not well-formed: " + why + ": " + c.key())
+					}
+					out = append(out, c)
+				}
+			}
+		}
+	}
+	return out
+}
+
+func genRec(t *rapid.T) RecCase {
+	// (mostly) recursions every navigation of which Go completes: the others are not judged
+	for try := 0; ; try++ {
+		c := genRec1(t)
+		if _, why := c.expected(); why == "" || try >= 3 {
+			return c
+		}
+	}
+}
+
+func genRec1(t *rapid.T) RecCase {
+	fam := rapid.SampledFrom([]string{"node", "node", "", "", "ext"}).Draw(t, "fam")
+	var p Case
+	for try := 0; ; try++ {
+		p = genCase(t, fam)
+		n := 0
+		for _, s := range p.Steps {
+			n += len(s.A)
+		}
+		if n > 0 || try > 20 {
+			break
+		}
+	}
+	p.Cuts, p.Sweep, p.Twice = nil, nil, false
+	switch p.Root {
+	case "q", "qk", "ks":
+		p.Root = "r"
+	}
+	num, which := rapid.IntRange(0, 59).Draw(t, "num"), rapid.IntRange(0, 999).Draw(t, "which")
+	all := recCasesOf1(p, num, true, which)
+	if len(all) == 0 {
+		// no argument anywhere: a fixed path of the Node family instead
+		p = Case{Fam: "node", Root: "n", Variant: p.Variant, Ptr: p.Ptr, Steps: []Step{{F: "Kids"}, {X: true, A: ia(1, false)}, {M: "Greet", A: sa("x", false)}}}
+		all = recCasesOf1(p, num, true, which)
+	}
+	c := all[0]
+	c.K = rapid.IntRange(1, 4).Draw(t, "depth")
+	if len(c.Loop) > 0 {
+		c.Loop = rapid.SliceOfN(rapid.IntRange(0, 4), 2, 4).Draw(t, "depths")
+	}
+	c.Let = rapid.Bool().Draw(t, "let")
+	if c.Cmp && rapid.Bool().Draw(t, "values") {
+		vals := recValues(c.P.Steps[c.Hole[0]].A[c.Hole[1]], c.P.Steps[c.Hole[0]])
+		pick := func(l string) Arg { return vals[rapid.IntRange(0, len(vals)-1).Draw(t, l)] }
+		c.B, c.V1, c.V2, c.Lit = pick("b"), pick("v1"), pick("v2"), pick("lit")
+	}
+	if why := c.wellFormed(); why != "" {
+		panic("harness: generated case is not well-formed: " + why + ": " + c.key())
+	}
+	return c
+}
+
+const rule = "data: Root/Mid/Leaf/Inner graphs (value and pointer fields, nil pointers, slices, arrays, map[string], map[int], slices/maps of pointers with nil elements, interface-typed fields, value- and pointer-receiver methods with 0-2 arguments returning strings, structs, pointers, nil, slices and maps; the member names Name, Arr, M, IM, Any, Hello repeat at every depth) in 2 recipes x root passed as Root or *Root; every leaf string spells its own Go path with [A-Za-z0-9_.,()\\[\\]] only (keys and arguments unquoted). Paths: walks over the TYPE graph by reflection (field, index/key, method-call steps; literal and context-variable indexes, keys and arguments): (E1) every walk of <= L steps (quick: 3, plus every 5th walk of 4 steps; thorough: 4) that ends at a string or at a deliberately broken step (missing key, index = len and beyond, negative index, wrong key type, unknown / unexported member, field called as method, indexing a struct; nil pointers and short slices come from the data); (E2) two and three INDEXED levels r.C1[i].C2[j].C3[k] over every combination of collection-valued members; (R) random walks of up to 7+ steps with random root and variable names (names that collide with member names included). Each path is placed in <%= %> (once, and twice in a row), behind `let v = prefix` at every position, and as a `for (kk, v) in prefix` iterable at every index step (the rest continues from the loop variable; every element is checked), also let+for combined; (E3/R) SWEEPS: the whole body is put in one loop body and evaluated once per value of a variable q (loop key, loop value, or `let q = value` re-assigned in the loop scope) that stands for one or several inner indexes / keys / method arguments of the path, so the same expression node is evaluated 2-4 times in one scope with different inner indexes; every evaluation is compared with the reference walk for its value. (N) NODE family: a recursive Node whose every member leads to a Node (fields Kids []Node, Next *Node, M map[string]*Node, Any interface{}; methods Kid(i) Node, PKid(i) *Node on the pointer, GetKids() []Node, Hello, Greet(s), Echo(any)); a node built by a method spells the call; 2 recipes (recipe 1: 3/1 kids, nil Next on every third level, nil map entries): every sequence of 1-3 hops x 4 tails (4 hops: sampled in the quick tier), literal/variable pattern, root and let names that are member names; long paths of 6 and 9 hops; every variable argument RENAMED to every member / method name that occurs earlier in the path (a template variable called Kids used below .Kids[0]); sweeps; BULK: one render that evaluates a path 1100 times. (X) EXT family: embedded structs (by value, by pointer - nil in recipe 1 -, of an unexported type) with promoted and shadowed fields and promoted methods, consecutive indexes (slice of slices, array of arrays, map of maps, map of slices, slice of maps; two and three in a row; at the top, below an index, below a call), interface-typed ELEMENTS (JSON-like nests, a slice of structs of two types that have the same member names in a different order, typed and untyped nil elements, a pointer to an array in an interface), a map keyed by interface{}, named slice / map types with methods, pointer to array: every walk of <= 3 steps incl. broken ones and every unexported member. (RE) RE-EXECUTION: one Template parsed once and executed 3-4 times against data of the other recipe / root form whose leaves spell the root differently; every execution is judged. Random walks for the Node and Ext families as for Root, with renamed variables. (REC) RECURSIVE TEMPLATE FUNCTIONS: a function defined in the template navigates a generated path P of the three families and the recursive call stands INSIDE the path - as an index, a map key or a method argument (r.Mids[i0].Leaves[walk(dk - 1)].Name, n.Kids[1].Greet(walk(dk - 1)), pick(walk(dk - 1)).Name) - so that the same expression node is under evaluation several times at once, each time at another element: leaf form `let walk = fn(dk) { if (dk <= 0) { return B } return P[walk(dk - 1)] }` (string / any arguments of methods; the output nests the spelled paths) and cmp form `... if (P[walk(dk - 1)] == LIT) { return V1 } return V2` (every argument position; B, V1, V2 of the hole's type, LIT = a leaf of P; emitted as walk(K)|P[walk(K)]); direct recursion, mutual recursion through a second function (leaf form: also over a second path), recursion through a function literal nested in the body; the value used directly or behind a let inside the function; emitted once or in a loop body over depths 0..K; the prefix up to an index / call step optionally behind a template function pick(i) (f(x).b); depth 1-4; exhaustively over every argument position of the short paths (E) and over random walks (R). Reference: the same recursion in Go over the reflection walk; judged only when Go completes every navigation of the recursion (else counted as excluded: broken paths are judged by the other phases), then output == the Go result, anything else (error, other text, panic) => violation; non-trivial = depth >= 2 with the hole below the first step. Reference: a reflection walk of the same steps over a separate copy of the same data (promoted members: the leaf spells the short path). Verdict per path: completable => output == the leaf's spelled path; not completable => error or empty output; a panic or any other text => violation; a clean failure of a completable path is a violation unless its shape is a listed open class. Non-trivial = broken path, or completable path of >= 3 steps containing an index, a method call or a cut; distinct by (family, recipe, root form, names, steps, cuts, twice, sweep, re-execution list, bulk)."
 
 func setup(t *testing.T) *vk.Run {
 	r := vk.Start(t, "C11", rule,
@@ -2772,6 +3326,16 @@ func setup(t *testing.T) *vk.Run {
 		strictMode = true
 		defer func() { strictMode = false }()
 		return checkCase(r, c)
+	})
+	r.Replayer("rec", func(raw json.RawMessage) *vk.Fail {
+		var c RecCase
+		if f := vk.Decode(raw, &c); f != nil {
+			return f
+		}
+		if why := c.wellFormed(); why != "" {
+			return &vk.Fail{Kind: "decode", Msg: why}
+		}
+		return checkRec(r, c)
 	})
 	return r
 }
@@ -3038,6 +3602,46 @@ func TestProp(t *testing.T) {
 	r.Subspace("ONE parsed template executed 3-4 times against different data (recipe 0/1, root by value / by pointer, leaves that spell the root differently, the first again): hop paths of <= 3 hops (quick: every 2nd), Ext walks of <= 3 steps, completable Root walks of <= 3 steps (quick: every 3rd)", nReCases, r.Thorough())
 	r.Subspace("one render that evaluates an indexed / chained path 1100 times (state leaking from one evaluation to the next within a render); the same paths 300 times per render by eight goroutines at once on one parsed template with different data (state leaking from one execution to another)", int64(len(fcases))-nbulk0, true)
 
+	// (REC) functions of the template that call themselves (directly, through a second function, through a nested
+	// function literal) from inside the path: every argument position of the short paths of the three families
+	type recSrc struct {
+		p   Case
+		num int
+	}
+	var recs []recSrc
+	tRec := time.Now()
+	for i, steps := range hopShort {
+		if r.Thorough() || i%2 == int(r.Seed%2) {
+			recs = append(recs, recSrc{Case{Fam: "node", Variant: i % 2, Ptr: i%4 < 2, Root: nodeRoots[i%len(nodeRoots)], Steps: steps}, i})
+		}
+	}
+	nRecNodePaths := len(recs)
+	for i, p := range paths {
+		if p.broken == "" && (r.Thorough() || i%2 == int(r.Seed%2)) {
+			recs = append(recs, recSrc{Case{Variant: i % 2, Ptr: i%4 >= 2, Root: []string{"r", "Mids", "x"}[i%3], Steps: p.steps}, i})
+		}
+	}
+	for i, steps := range extGood {
+		recs = append(recs, recSrc{Case{Fam: "ext", Variant: i % 2, Ptr: i%4 < 2, Root: "x", Steps: steps}, i})
+	}
+	var nRec, nRecNode int64
+	for i, s := range recs {
+		n := int64(len(recCasesOf1(s.p, s.num, r.Thorough(), -2))) // (counted only: the cases are built by the shard that runs them)
+		nRec += n
+		if i < nRecNodePaths {
+			nRecNode += n
+		}
+	}
+	r.Parallel(int64(len(recs)), 0, func(i int64) {
+		for _, c := range recCasesOf(recs[i].p, recs[i].num, r.Thorough()) {
+			r.Check(checkRec(r, c))
+		}
+	})
+	r.Subspace("recursive template functions: for every hop path of <= 3 hops (Node), every completable walk and indexed-level path above (Root) and every all-variable Ext walk (quick: every 2nd Node / Root path), and every index / key / method argument in it: the recursive call stands in that position (cmp form for every position, leaf form for string / any arguments of methods); direct, mutual (second function; leaf form also with a second path) and nested-function-literal recursion (quick: one of the three per position), depth 2-3, the value used directly or behind a let, emitted once or in a loop over depths 0..K, the prefix up to an index / call step optionally behind a template function pick(i); "+strconv.FormatInt(nRecNode, 10)+" Node cases", nRec, r.Thorough())
+	if debug {
+		fmt.Printf("REC phase: %d cases, %v\n", nRec, time.Since(tRec))
+	}
+
 	if debug {
 		fmt.Printf("E phase done after %v\n", time.Since(t0))
 	}
@@ -3051,6 +3655,13 @@ func TestProp(t *testing.T) {
 	r.Rapid("ext-walks", r.Pick(1500, 25000), func(t *rapid.T) *vk.Fail {
 		return checkCase(r, genCase(t, "ext"))
 	})
+	tRec = time.Now()
+	r.Rapid("recursive-functions", r.Pick(3000, 12000), func(t *rapid.T) *vk.Fail {
+		return checkRec(r, genRec(t))
+	})
+	if debug {
+		fmt.Printf("REC random phase: %v\n", time.Since(tRec))
+	}
 
 	dumpShapes(r)
 
